@@ -469,12 +469,12 @@ pub fn relay_check(cx: &mut Ctx, prop: &str, replies_only: bool) {
                 u.first_seq >= s.start_seq && u.first_seq <= s.done_seq
             });
             units.sort_by_key(|(ci, ui)| h.backend_conns[*ci].units[*ui].first_seq);
-            if let Some(perr) = pooler_error(&s.msgs) {
+            if pooler_error(&s.msgs).is_some() {
+                // part of this step was answered by the pooler itself (no connection within
+                // connect_timeout, a ban, a timeout): whether that was justified is the business
+                // of C04/C07; there is no server-side counterpart to compare the step with
                 cx.probe("relay_pooler_error_reply");
-                if units.is_empty() {
-                    let _ = perr;
-                    continue;
-                }
+                continue;
             }
             if units.is_empty() {
                 // answered by the pooler itself (custom command, intercept, deny, elided batch)
